@@ -1785,6 +1785,18 @@ where
                     _ => C::ulps_eq(&c1, &c2, p.eps, p.max_ulps),
                 });
                 let params = format!("epsilon={:?} max_relative={:?} max_ulps={}", p.eps, p.max_rel, p.max_ulps);
+                // the negated forms (provided by the approx traits, possibly overridden): "not equal"
+                // exactly when some pair of corresponding elements is not equal
+                let got_ne = guarded(|| match rel {
+                    0 => C::abs_diff_ne(&c1, &c2, p.eps),
+                    1 => C::relative_ne(&c1, &c2, p.eps, p.max_rel),
+                    _ => C::ulps_ne(&c1, &c2, p.eps, p.max_ulps),
+                });
+                match got_ne {
+                    Ok(g) if g == !exp => {}
+                    Ok(g) => bads.push((format!("{}::{}", cname, ["abs_diff_ne", "relative_ne", "ulps_ne"][rel]), "wrong_value", "negation_of_conjunction_of_elements", format!("{} [{} for {}] is {} but the per-element scalar verdicts of the positive form are {:?} (so 'not equal' must be {}); {}; lhs {:?} rhs {:?}", ["abs_diff_ne", "relative_ne", "ulps_ne"][rel], mode, REL_NAMES[focus], g, lanes, !exp, params, xs, ys))),
+                    Err(pn) => bads.push((format!("{}::{}", cname, ["abs_diff_ne", "relative_ne", "ulps_ne"][rel]), "panic", "panic_where_value_promised", format!("negated form panicked ({}); {}", pn, params))),
+                }
                 match got {
                     Ok(g) if g == exp => {}
                     Ok(g) => {
